@@ -28,11 +28,19 @@ def _case(draw, size=1):
     pitches = draw(gens.pitch_pool([(60,), (60, 61), (60, 61, 62)]))
     notes = draw(gens.wellformed_notes(channels=(0, 1), pitches=pitches, max_notes=9 * size, max_len=50,
                                        max_gap=draw(st.sampled_from([30, 30, 70]))))
+    if draw(st.integers(0, 11)) == 0:
+        # one very long sustained note (an organ point of 10^4..10^5 ticks), far away from every allowed value
+        free = [p for p in (59, 63, 70) if p not in pitches] or [100]
+        on = draw(st.integers(0, 40))
+        notes = sorted(notes + [[draw(st.sampled_from([0, 1])), free[0], on, on + draw(st.sampled_from([65536, 70000, 100000, 20000, 65535 + 36])),
+                                  draw(st.integers(1, 127))]])
     meta = draw(gens.meta_events(max_tick=150, max_events=3, with_noise=True))
     spec = {"notes": notes, "meta": meta}
     spec.update(draw(gens.route()))
     end = max([n[3] for n in notes] + [m[1] for m in meta] + [0])
     spec["pad"] = draw(st.one_of(st.none(), st.just(end + draw(st.integers(0, 30)))))
+    if draw(st.integers(0, 7)) == 0:
+        spec["double"] = draw(st.sampled_from(["self", "fresh"]))     # the material twice: one message object, two positions
     values = draw(st.one_of(st.lists(st.sampled_from(VALUES), min_size=0, max_size=5),
                             st.sampled_from([[24, 12, 6, 16, 8, 4, 36, 18, 9], [12], [4, 2], [48, 24], [3, 5], [96], [48], [96, 12]])))
     return {"seq": spec, "values": list(values), "dne": draw(st.booleans())}
